@@ -419,3 +419,5 @@ def check_c11(model, rep, tier):
     r_getvar(model, rep)
     r_forest_validators(model, rep)
     r_uid_format(model, rep)
+    from .validation import r_validate_all
+    r_validate_all(model, rep)
